@@ -56,6 +56,8 @@ impl<W: Write> WriteCanonicalFormState<W> {
 		schema: &SchemaMut,
 		key: SchemaKey,
 	) -> Result<(), SchemaError> {
+		#[cfg(ten0_serde_avro_fast_verif)]
+		crate::schema::verif_hooks::tick();
 		let node = schema
 			.nodes
 			.get(key.idx)
